@@ -213,3 +213,21 @@ fn valid_base_n() {
     let e: u8 = kani::any();
     assert!(valid_base(e) == valid_base(e ^ 0x20));
 }
+
+// the five leaf functions against their Verus contracts, for every byte: a complete second discharge of the same
+// contracts on the real code, independent of how the bodies are written (the driver accepts it in place of the
+// Verus obligation when only the function's own body proof fails after a refactoring)
+#[kani::proof]
+fn leaf_fns_all_bytes() {
+    let b: u8 = kani::any();
+    assert!(encode_base(b) == (b >> 1) & 0x3);
+    assert!(encode_base(b) < 4);
+    assert!(rc_base(b) == b ^ 2);
+    assert!(valid_base(b) == (b & 0xF != 14));
+    let l = b | 0x20;
+    assert!(is_ambiguous(b) == !(l == b'a' || l == b'c' || l == b'g' || l == b't' || l == b'u' || l == b'-'));
+    if b < 4 {
+        assert!(decode_base(b) == [b'A', b'C', b'T', b'G'][b as usize]);
+        assert!(rc_base(b) < 4);
+    }
+}
